@@ -5631,6 +5631,11 @@ impl<SP: SignerProvider> ChannelContext<SP> {
 		// `RemoteRemoved` HTLCs can still be present on the next remote commitment if
 		// local produces a commitment before acknowledging the update. These HTLCs
 		// will for sure not be present on the next local commitment.
+		//
+		// When the candidate is an HTLC the counterparty is adding, however, the removals they
+		// sent before it are committed no later than the candidate itself, so no remote commitment
+		// can contain both the candidate and a `RemoteRemoved` HTLC.
+		let counterparty_adding_htlc = htlc_candidate.as_ref().map_or(false, |htlc| !htlc.outbound);
 		let pending_outbound_htlcs = self
 			.pending_outbound_htlcs
 			.iter()
@@ -5638,7 +5643,7 @@ impl<SP: SignerProvider> ChannelContext<SP> {
 				(OutboundHTLCState::LocalAnnounced(..), _) => include_counterparty_unknown_htlcs,
 				(OutboundHTLCState::Committed, _) => true,
 				(OutboundHTLCState::RemoteRemoved(..), true) => false,
-				(OutboundHTLCState::RemoteRemoved(..), false) => true,
+				(OutboundHTLCState::RemoteRemoved(..), false) => !counterparty_adding_htlc,
 				(OutboundHTLCState::AwaitingRemoteRevokeToRemove(..), _) => false,
 				(OutboundHTLCState::AwaitingRemovedRemoteRevoke(..), _) => false,
 			})
@@ -5686,7 +5691,13 @@ impl<SP: SignerProvider> ChannelContext<SP> {
 	/// will *not* be present on the next commitment from `next_commitment_htlcs`, and
 	/// check if their outcome is successful. If it is, we add the value of this claimed
 	/// HTLC to the balance of the claimer.
-	fn get_next_commitment_value_to_self_msat(&self, local: bool, funding: &FundingScope) -> u64 {
+	///
+	/// `counterparty_adding_htlc` is set when this is used to validate an HTLC the counterparty is
+	/// adding: the claims they sent before it are committed no later than the HTLC itself, so a
+	/// `RemoteRemoved` claim is accounted for on the remote commitment as well.
+	fn get_next_commitment_value_to_self_msat(
+		&self, local: bool, funding: &FundingScope, counterparty_adding_htlc: bool,
+	) -> u64 {
 		use InboundHTLCRemovalReason::Fulfill;
 		use OutboundHTLCOutcome::Success;
 
@@ -5705,7 +5716,7 @@ impl<SP: SignerProvider> ChannelContext<SP> {
 			.iter()
 			.filter(|OutboundHTLCOutput { state, .. }| match (state, local) {
 				(OutboundHTLCState::RemoteRemoved(Success { .. }), true) => true,
-				(OutboundHTLCState::RemoteRemoved(Success { .. }), false) => false,
+				(OutboundHTLCState::RemoteRemoved(Success { .. }), false) => counterparty_adding_htlc,
 				(OutboundHTLCState::AwaitingRemoteRevokeToRemove(Success { .. }), _) => true,
 				(OutboundHTLCState::AwaitingRemovedRemoteRevoke(Success { .. }), _) => true,
 				_ => false,
@@ -5740,12 +5751,14 @@ impl<SP: SignerProvider> ChannelContext<SP> {
 		include_counterparty_unknown_htlcs: bool, addl_nondust_htlc_count: usize,
 		feerate_per_kw: u32, assume_fee_spike: bool, dust_exposure_limiting_feerate: Option<u32>,
 	) -> Result<(ChannelStats, Vec<HTLCAmountDirection>), ()> {
+		let counterparty_adding_htlc = htlc_candidate.as_ref().map_or(false, |htlc| !htlc.outbound);
 		let next_commitment_htlcs = self.get_next_commitment_htlcs(
 			true,
 			htlc_candidate,
 			include_counterparty_unknown_htlcs,
 		);
-		let next_value_to_self_msat = self.get_next_commitment_value_to_self_msat(true, funding);
+		let next_value_to_self_msat =
+			self.get_next_commitment_value_to_self_msat(true, funding, counterparty_adding_htlc);
 
 		let max_dust_htlc_exposure_msat =
 			self.get_max_dust_htlc_exposure_msat(dust_exposure_limiting_feerate);
@@ -5809,12 +5822,14 @@ impl<SP: SignerProvider> ChannelContext<SP> {
 		include_counterparty_unknown_htlcs: bool, addl_nondust_htlc_count: usize,
 		feerate_per_kw: u32, assume_fee_spike: bool, dust_exposure_limiting_feerate: Option<u32>,
 	) -> Result<(ChannelStats, Vec<HTLCAmountDirection>), ()> {
+		let counterparty_adding_htlc = htlc_candidate.as_ref().map_or(false, |htlc| !htlc.outbound);
 		let next_commitment_htlcs = self.get_next_commitment_htlcs(
 			false,
 			htlc_candidate,
 			include_counterparty_unknown_htlcs,
 		);
-		let next_value_to_self_msat = self.get_next_commitment_value_to_self_msat(false, funding);
+		let next_value_to_self_msat =
+			self.get_next_commitment_value_to_self_msat(false, funding, counterparty_adding_htlc);
 
 		let max_dust_htlc_exposure_msat =
 			self.get_max_dust_htlc_exposure_msat(dust_exposure_limiting_feerate);
